@@ -8,6 +8,7 @@
 #include <sys/mman.h>
 #include <unistd.h>
 
+#include <csignal>
 #include <chrono>
 #include <map>
 #include <unordered_map>
@@ -87,6 +88,48 @@ static std::string key_of(World &w) {
   return k;
 }
 
+/// Destructive probe appended to the key of the state a run ends in (the pool is destroyed right afterwards): state that
+/// is hidden behind the public API but decides later behaviour - e.g. stale inline elements of a SmallSet in its large
+/// state - becomes visible once the container is drained.  For a correct implementation the probe is a function of the
+/// visible key, so it merges nothing less; for a broken one it keeps apart states that only look alike.
+static std::string probe_of(World &w) {
+  std::vector<std::string> parts;
+  for (int i = 0; i < w.K; ++i) {
+    S &s = w.slot[i].s();
+    std::string base;
+    {
+      char buf[64];
+      std::snprintf(buf, sizeof buf, "L%dc%ldm%db%d[", LargeProbe<S>::get(s), CapProbe<S>::get(s), cmp_state(s.key_comp()), (int)w.big[i]);
+      base = buf;
+      for (auto it = s.begin(); it != s.end(); ++it) base += (char)('a' + (E::val(*it) & 31));
+      base += ']';
+    }
+    s.clear();
+    char buf[64];
+    std::snprintf(buf, sizeof buf, "~n%ldL%dc%ld[", (long)s.size(), LargeProbe<S>::get(s), CapProbe<S>::get(s));
+    std::string pr = buf;
+    long n = 0;
+    for (auto it = s.begin(); it != s.end() && n < 40; ++it, ++n) pr += (char)('a' + (E::val(*it) & 31));
+    pr += ";";
+    parts.push_back(base + pr);
+  }
+  std::sort(parts.begin(), parts.end());
+  std::string k;
+  for (auto &q : parts) k += q;
+  return k;
+}
+/// the key without the probe parts ("~...;")
+static std::string strip_probe(const std::string &k) {
+  std::string r;
+  bool skip = false;
+  for (char c : k) {
+    if (c == '~') skip = true;
+    if (!skip) r += c;
+    if (c == ';') skip = false;
+  }
+  return r;
+}
+
 static uint64_t g_digest;
 static void dig(long x) { g_digest = (g_digest ^ (uint64_t)x) * 1099511628211ULL; }
 
@@ -110,6 +153,13 @@ static void bounds(const SetT &s, const M &m, const KeyT &key, const MKeyT &mkey
   dig(lb * 16 + ub);
   if (lb != mlb) vf::fail("C03", "set %d: lower_bound(%d) at %ld, std::set at %ld", i, label, lb, mlb);
   if (ub != mub) vf::fail("C03", "set %d: upper_bound(%d) at %ld, std::set at %ld", i, label, ub, mub);
+}
+
+/// address reached through operator-> (raw pointers are their own arrow)
+template <class It>
+static auto arrow_of(const It &it) {
+  if constexpr (std::is_pointer<It>::value) return it;
+  else return it.operator->();
 }
 
 template <class SetT = S>
@@ -137,6 +187,7 @@ static void observe(World &w) {
       if (!E::sane(*it, &why)) vf::fail("C02", "set %d: %s", i, why);
       fwd.push_back(E::val(*it));
       dig(E::val(*it));
+      if (arrow_of(it) != std::addressof(*it)) vf::fail(PTI(), "set %d: iterator operator-> does not designate the element operator* returns", i);
     }
     if (runaway) {
       vf::fail(PTI(), "set %d: begin()..end() walk does not terminate", i);
@@ -149,6 +200,7 @@ static void observe(World &w) {
         break;
       }
       bwd.push_back(E::val(*it));
+      if (arrow_of(it) != std::addressof(*it)) vf::fail(PTI(), "set %d: reverse iterator operator-> does not designate the element operator* returns", i);
     }
     if (runaway) {
       vf::fail(PTI(), "set %d: rbegin()..rend() walk does not terminate", i);
@@ -220,8 +272,19 @@ static void observe(World &w) {
     vf::fail(PT(), "%ld comparisons were made through a default-constructed comparator instead of the set's own comparator object", g_default_cmp_calls);
 }
 
+
+// watchdog: one execution (history + operation) that does not finish within 30 s is a hang (a corrupted container can
+// send an algorithm into an endless loop); it is reported like a crash, with the breadcrumb naming the execution
+static void on_alarm(int) {
+  static const char msg[] = "\nSUMMARY: watchdog: execution did not terminate within 30 s (hang)\n";
+  ssize_t r = write(2, msg, sizeof msg - 1);
+  (void)r;
+  _exit(97);
+}
+
 struct RunResult {
   std::string key_before, key_after;
+  std::string key_full;  // key of the final state of the run including the destructive probe
   uint64_t digest = 0;
   int nfail = 0;
   long events = 0;
@@ -231,6 +294,7 @@ static bool g_fault_seen = false;
 
 static RunResult run_once(const std::vector<Op> &hist, const Op *op, int K, std::vector<Op> *enabled, const Opts &o) {
   RunResult r;
+  alarm(30);
   World &w = g_w;
   w.K = K;
   vf::L().reset();
@@ -259,12 +323,21 @@ static RunResult run_once(const std::vector<Op> &hist, const Op *op, int K, std:
     observe<>(w);
     r.key_after = key_of(w);
   }
+  {
+    const int nf = vf::L().nfail;
+    vf::L().quiet = true;  // the probe is not an oracle
+    r.key_full = probe_of(w);
+    vf::L().quiet = false;
+    vf::L().nfail = nf;
+    // live-object bookkeeping: clear() destroyed the elements the sets held
+  }
   pool_destroy(w);
   for (int i = 0; i < w.K; ++i) w.m[i].reset();
   if (E::tracked && vf::L().live() != 0) vf::fail("C02", "%d element objects still alive after all sets were destroyed", vf::L().live());
   if (kLedgerAlloc && vf::AL().n != 0) vf::fail("C06", "%d blocks outstanding after all sets were destroyed", vf::AL().n);
   r.digest = g_digest;
   r.nfail = vf::L().nfail;
+  alarm(0);
   return r;
 }
 
@@ -305,6 +378,7 @@ struct State {
 
 int main(int argc, char **argv) {
   install_hooks();
+  std::signal(SIGALRM, on_alarm);
   int K = 1;
   bool explore = false;
   std::string replay;
@@ -408,11 +482,13 @@ int main(int argc, char **argv) {
   auto succ_keys = [&](const std::vector<Op> &H) {
     std::vector<std::string> ks;
     std::vector<Op> en;
+    crumb(H, nullptr);
     run_once(H, nullptr, K, &en, o);
     std::vector<Op> ops2 = en;
     for (const Op &op : ops2) {
+      crumb(H, &op);
       RunResult rr = run_once(H, &op, K, nullptr, o);
-      ks.push_back(rr.nfail ? std::string("FAIL") : rr.key_after);
+      ks.push_back(rr.nfail ? std::string("FAIL") : rr.key_full);
     }
     std::sort(ks.begin(), ks.end());
     return ks;
@@ -421,9 +497,9 @@ int main(int argc, char **argv) {
   {
     std::vector<Op> none;
     RunResult r0 = run_once(none, nullptr, K, nullptr, o);
-    seen[r0.key_before] = 0;
+    seen[r0.key_full] = 0;
     states.push_back(State{-1, Op(), 0, 0});
-    keys.push_back(r0.key_before);
+    keys.push_back(r0.key_full);
   }
   long transitions = 0, viol_total = 0, fault_transitions = 0, max_events = 0;
   std::map<uint64_t, int> digests;
@@ -446,7 +522,7 @@ int main(int argc, char **argv) {
     std::vector<Op> h = history((int)cur);
     crumb(h, nullptr);
     RunResult rp = run_once(h, nullptr, K, &enabled, o);
-    if (rp.key_before != keys[cur]) {
+    if (rp.key_before != strip_probe(keys[cur])) {
       nondet = "canon-on-replay failed for state " + keys[cur] + " via " + hist_str(h) + " got " + rp.key_before;
       break;
     }
@@ -457,7 +533,7 @@ int main(int argc, char **argv) {
       ++transitions;
       ++per_kind[kind_name(op.k)];
       digests[r.digest] = 1;
-      if (r.key_before != keys[cur]) {
+      if (r.key_before != strip_probe(keys[cur])) {
         nondet = "prefix replay diverged at state " + keys[cur];
         break;
       }
@@ -472,7 +548,7 @@ int main(int argc, char **argv) {
         if (failure_is_fatal()) continue;
       }
       {
-        auto itm = seen.find(r.key_after);
+        auto itm = seen.find(r.key_full);
         if (itm != seen.end() && merges_checked < merge_check && itm->second != (int)cur && !r.nfail) {
           std::vector<Op> h2 = h;
           h2.push_back(op);
@@ -480,16 +556,16 @@ int main(int argc, char **argv) {
           if (hist_str(h1) != hist_str(h2)) {
             ++merges_checked;
             if (succ_keys(h1) != succ_keys(h2)) {
-              nondet = "state abstraction unsound: histories [" + hist_str(h1) + "] and [" + hist_str(h2) + "] share key " + r.key_after + " but have different successor keys";
+              nondet = "state abstraction unsound: histories [" + hist_str(h1) + "] and [" + hist_str(h2) + "] share key " + r.key_full + " but have different successor keys";
               break;
             }
           }
         }
       }
-      if (seen.find(r.key_after) == seen.end()) {
-        seen.emplace(r.key_after, (int)states.size());
+      if (seen.find(r.key_full) == seen.end()) {
+        seen.emplace(r.key_full, (int)states.size());
         states.push_back(State{(int)cur, op, states[cur].depth + 1, states[cur].faults});
-        keys.push_back(r.key_after);
+        keys.push_back(r.key_full);
         maxdepth = std::max(maxdepth, states[cur].depth + 1);
       }
       if (fault_bound > 0 && states[cur].faults < fault_bound) {
@@ -516,10 +592,10 @@ int main(int argc, char **argv) {
               viols.push_back(VRec{vf::L().fails[0].tags, vf::L().fails[0].msg, hist_str(h), op_str(fop), keys[cur]});
             continue;
           }
-          if (seen.find(rf.key_after) == seen.end()) {
-            seen.emplace(rf.key_after, (int)states.size());
+          if (seen.find(rf.key_full) == seen.end()) {
+            seen.emplace(rf.key_full, (int)states.size());
             states.push_back(State{(int)cur, fop, states[cur].depth + 1, states[cur].faults + 1});
-            keys.push_back(rf.key_after);
+            keys.push_back(rf.key_full);
             maxdepth = std::max(maxdepth, states[cur].depth + 1);
           }
         }
